@@ -2,12 +2,14 @@
    kind = property*100 + sub-model.  [run] = what the model says the implementation must
    output on this input; [mon] = the property's monitor applied to the implementation's own
    observed output. *)
-From RainV Require Import Lib Tier Geometry.
+From RainV Require Import Lib Tier Geometry SectionIO.
 
 Definition run (kind : Z) (inp : list Z) : list Z :=
   match kind with
   | 201 => run_new_pieces inp
   | 202 => run_calc_blocks inp
+  | 203 => run_section_io inp
+  | 204 => run_create_jobs inp
   | 1601 => run_tier true inp
   | _ => [-999]
   end.
@@ -16,13 +18,14 @@ Definition mon (kind : Z) (inp obs : list Z) : bool :=
   match kind with
   | 201 => mon_new_pieces inp obs
   | 202 => mon_calc_blocks inp obs
+  | 203 => mon_section_io inp obs
+  | 204 => mon_create_jobs inp obs
   | 1601 => mon_tier inp obs
   | _ => false
   end.
 
 (* one case = (kind, input, observed); result = (model output agrees, monitor) *)
-Definition list_eqb (a b : list Z) : bool :=
-  (Nat.eqb (length a) (length b)) && forallb (fun p => fst p =? snd p) (combine a b).
+Definition list_eqb := list_eqb_Z.
 
 Definition check_case (c : Z * list Z * list Z) : bool * bool :=
   let '(k, i, o) := c in (list_eqb (run k i) o, mon k i o).
